@@ -218,6 +218,11 @@ func (g *gen) notification() *NotiJ {
 	case 4: // empty
 		return &NotiJ{TS: g.ts(), Prefix: &PathJ{Target: t}}
 	case 5: // metadata written from outside, stamped with the clock as the cache's own writers do
+		if g.r.Chance(1, 2) { // round 7: a DELETE addressed to the metadata subtree (gnmiRemove -> ResetEntry)
+			q := [][]string{{"meta", "targetLeaves"}, {"meta", "targetLeavesAdded"}, {"meta", "targetLeavesUpdated"}, {"meta", "targetLeavesDeleted"},
+				{"meta", "latestTimestamp"}, {"meta", "targetSize"}, {"meta", "sync"}, {"meta", "connected"}, {"meta", "connectError"}, {"meta"}, {"meta", "*"}}[g.r.Intn(11)]
+			return delN(g.clock+1, &PathJ{Target: t}, pth(q...))
+		}
 		k := []string{"sync", "connected", "connectedAddress"}[g.r.Intn(3)]
 		var v *ValJ
 		switch k {
@@ -355,6 +360,9 @@ func ruleText() string {
 		"atomicity of [mutate; announce]: a call X (Remove / Reset / update / delete / Sync / Connect) parked inside its first cache.Now() or inside its " +
 		"first feed callback while calls Y (Add+update, update, delete, Reset, Remove, update of another target) run on a second goroutine " +
 		"against the same name, every X x park point x Y; " +
+		"metaaddr: legal input addressed to the metadata subtree (delete of meta/<every registered int / bool / string entry>, of an unknown entry, of meta, meta/*, " +
+		"the same through the prefix, several in one notification, updates of meta/<counter> from outside) on one or both of two targets holding data, followed by " +
+		"Reset / Remove / UpdateMetadata+Reset / Sync+Connect+Reset / data delete+Reset / ConnectError+Reset twice / Reset of the other / wildcard delete, then traffic and Reset of both; " +
 		"distinct = distinct (config, targets, calls); non-trivial = some Reset/Remove hits a target holding a non-metadata leaf " +
 		"while another target holds one too, or a subscriber received a response"
 }
@@ -385,4 +393,5 @@ func generate(e *emitter, o vh.Opts) {
 	generateSubs(e, o, r.Fork())
 	generateNames(e, o)
 	generateOptions(e, o)
+	generateMetaAddr(e, o)
 }
